@@ -555,3 +555,90 @@ func (w *World) Report(peer string, upSeid uint64, cause uint8) []pfcpx.Dgram {
 
 	return ds
 }
+
+// EstabBurst sends one establishment per peer at the same time and records them one after the other (in the
+// order the answers arrived) with the tables as they are after the whole burst.
+func (w *World) EstabBurst(peers []string, reqs []*SessReq) [][]pfcpx.Dgram {
+	type sent struct {
+		p   *pfcpx.Peer
+		req map[string]interface{}
+		raw []byte
+	}
+
+	var ss []sent
+
+	for i, name := range peers {
+		p := w.Peer(name)
+		p.Drain()
+
+		r := reqs[i]
+		seq := w.seqOf(p, r)
+		ies := []*ie.IE{ie.NewNodeID(p.NodeID, "", ""), ie.NewFSEID(r.CP, net.ParseIP(p.NodeID).To4(), nil)}
+
+		for _, x := range r.CPDR {
+			ies = append(ies, x.CreateIE())
+		}
+
+		for _, x := range r.CFAR {
+			ies = append(ies, x.CreateIE())
+		}
+
+		for _, x := range r.CQER {
+			ies = append(ies, x.CreateIE())
+		}
+
+		ss = append(ss, sent{p, w.sessReqJSON(p, r, seq), marshal(message.NewSessionEstablishmentRequest(0, 0, 0, seq, 0, ies...))})
+	}
+
+	for _, s := range ss {
+		_ = s.p.SendRaw(s.raw)
+	}
+
+	for _, s := range ss {
+		s.p.WaitN(1, w.RespWait)
+	}
+
+	w.settle(ss[0].p, true, 3*time.Millisecond)
+
+	out := make([][]pfcpx.Dgram, len(ss))
+	allResps := make([][]map[string]interface{}, len(ss))
+
+	for i, s := range ss { // decode the answers first: the UP SEIDs they carry name the table entries
+		out[i] = s.p.Drain()
+		allResps[i] = []map[string]interface{}{}
+
+		for _, d := range out[i] {
+			allResps[i] = append(allResps[i], w.respJSON(d))
+		}
+	}
+
+	t := w.Bess.Snapshot()
+	dp := w.dpJSON()
+
+	var snap map[string]interface{}
+	if w.SnapEvery {
+		snap = w.snapJSON()
+	}
+
+	for i, s := range ss {
+		ds := out[i]
+		resps := allResps[i]
+
+		ev := map[string]interface{}{"ev": "req", "kind": "estab", "peer": s.p.Name, "req": s.req, "resps": resps, "dp": dp, "cmds": t.Cmds, "errs": t.Errs,
+			"markers": []interface{}{}, "burst": i < len(ss)-1}
+		if snap != nil {
+			ev["snap"] = snap
+		}
+
+		w.emit(ev)
+		w.Steps++
+
+		if len(ds) >= 1 && ds[0].Cause == 1 {
+			w.Accepted++
+		}
+	}
+
+	w.CheckAlive()
+
+	return out
+}
